@@ -3,6 +3,7 @@ From Coq Require Import NArith List Bool.
 From ZV.Gen Require Import Gen_Seek.
 From ZV.Seek Require Import SeekTable SeekBase SeekTableProofs SeekLoadProofs SeekLoadSafe SeekWriteProofs SeekWriter.
 From ZV.Seek Require Import SeekReader SeekReaderProofs SeekEndToEnd SeekCompressProofs SeekIntegrity.
+From ZV.Seek Require Import SeekReaderOld SeekBeyond SeekExact.
 Import ListNotations.
 Local Open Scope N_scope.
 
@@ -227,3 +228,113 @@ Theorem failed_seek_before_fix_returns_wrong_data :
               /\ sliceN ex_x 0 1 = [10].
 Proof. exact stale_cache_wrong_data. Qed.
 Print Assumptions failed_seek_before_fix_returns_wrong_data.
+
+(* ================================================================ round 2 =========================================
+   Findings of round 2, all repaired in /repo; the model mirrors the repaired code; the theorems below state what the
+   repairs achieve for EVERY input, the *_before_fix ones are refutation witnesses about the old step functions
+   (SeekReaderOld.v, c_compress_body). *)
+
+(* ---- fix 7f35186: a read that stops EXACTLY at the end of a damaged frame (every ZSTD_seekable_decompressFrame call is
+   such a read) never succeeds either - the loop drives the decoder to the end of the frame and compares the checksum;
+   generalises damaged_frame_never_read_through (D (b+1) <= offset + len instead of <).  No assumption on the contents. *)
+Theorem damaged_frame_never_read_to_its_end : forall H content BUFF NOPROG t,
+  wf_table t -> t_flag t = true -> forall b, b < t_len t -> e_d (ent t b) < e_d (ent t (b + 1)) ->
+  H (content b) mod 4294967296 <> e_k (ent t b) ->
+  forall dst0 len offset orc,
+  offset < e_d (ent t (b + 1)) -> e_d (ent t (b + 1)) <= offset + len -> offset + len <= e_d (ent t (t_len t)) ->
+  not_ok (seekable_decompress H content BUFF NOPROG t true rinit dst0 len offset orc).
+Proof. exact damaged_frame_not_read_to_its_end. Qed.
+Print Assumptions damaged_frame_never_read_to_its_end.
+(* the model computes: a frame of the right length with one wrong byte, pacing "all bytes, then two stalled calls, then
+   frame complete" (what libzstd shows for a frame with its own content checksum): corruption_detected *)
+Theorem exact_frame_read_of_damaged_frame_example :
+  lenN (bad_content2 0) = e_d (ent ex_t 1) - e_d (ent ex_t 0) /\
+  match seekable_decompress_frame ex_H bad_content2 4 16 ex_t true rinit [0; 0; 0] 3 0 [(3, false); (0, false); (0, true)] with
+  | RErr c _ _ => c = sk_E_corruption_detected
+  | _ => False
+  end.
+Proof. exact exact_frame_run. Qed.
+Print Assumptions exact_frame_read_of_damaged_frame_example.
+(* before the fix: for EVERY well-formed table, EVERY frame b and ANY regenerated bytes of the right length, the exact read
+   and decompressFrame(b) with the pacing [(n, false)] returned SUCCESS with those bytes - no checksum was consulted *)
+Theorem exact_frame_read_unchecked_before_fix : forall H content BUFF NOPROG t sfc, wf_table t ->
+  forall b, b < t_len t -> e_d (ent t b) < e_d (ent t (b + 1)) ->
+  lenN (content b) = e_d (ent t (b + 1)) - e_d (ent t b) -> forall dst0,
+  exists st1, seekable_decompress_old H content BUFF NOPROG t sfc rinit dst0
+                (e_d (ent t (b + 1)) - e_d (ent t b)) (e_d (ent t b)) [(e_d (ent t (b + 1)) - e_d (ent t b), false)]
+              = ROk (e_d (ent t (b + 1)) - e_d (ent t b)) (buf_store dst0 0 (content b)) st1.
+Proof. exact SeekExact.exact_frame_read_unchecked_before_fix. Qed.
+Print Assumptions exact_frame_read_unchecked_before_fix.
+Theorem exact_frame_decompressFrame_unchecked_before_fix : forall H content BUFF NOPROG t sfc, wf_table t ->
+  forall b, b < t_len t -> e_d (ent t b) < e_d (ent t (b + 1)) ->
+  lenN (content b) = e_d (ent t (b + 1)) - e_d (ent t b) -> forall dst0 dstSize,
+  e_d (ent t (b + 1)) - e_d (ent t b) <= dstSize ->
+  exists st1, seekable_decompress_frame_old H content BUFF NOPROG t sfc rinit dst0 dstSize b
+                [(e_d (ent t (b + 1)) - e_d (ent t b), false)]
+              = ROk (e_d (ent t (b + 1)) - e_d (ent t b)) (buf_store dst0 0 (content b)) st1.
+Proof. exact SeekExact.exact_frame_decompressFrame_unchecked_before_fix. Qed.
+Print Assumptions exact_frame_decompressFrame_unchecked_before_fix.
+
+(* ---- fix bb8f456: offsets at / beyond the end, lengths reaching beyond the end.  For every table, state, decoder:
+   offset >= |x| returns 0 and touches nothing; a length reaching beyond the end (any value, offset + len may exceed 2^64)
+   is the same call as the one with length |x| - offset - so with range_read_correct EVERY (offset, len) is covered *)
+Theorem beyond_end_returns_zero : forall H content BUFF NOPROG t sfc, wf_table t ->
+  forall st dst0 len0 offset orc, e_d (ent t (t_len t)) <= offset ->
+  seekable_decompress H content BUFF NOPROG t sfc st dst0 len0 offset orc = ROk 0 dst0 st.
+Proof. exact SeekBeyond.beyond_end_returns_zero. Qed.
+Print Assumptions beyond_end_returns_zero.
+Theorem overlong_read_is_clamped : forall H content BUFF NOPROG t sfc, wf_table t ->
+  forall st dst0 len0 offset orc, offset < e_d (ent t (t_len t)) -> e_d (ent t (t_len t)) - offset <= len0 ->
+  seekable_decompress H content BUFF NOPROG t sfc st dst0 len0 offset orc =
+  seekable_decompress H content BUFF NOPROG t sfc st dst0 (e_d (ent t (t_len t)) - offset) offset orc.
+Proof. exact SeekBeyond.overlong_read_is_clamped. Qed.
+Print Assumptions overlong_read_is_clamped.
+(* before the fix, for every table and every state the read theorems reach (at_end_ok follows from Inv): offset > |x| was a
+   "success" of 2^64 + |x| - offset bytes with dst untouched; offset + len wrapping below |x| never returned *)
+Theorem beyond_end_wrapped_length_before_fix : forall H content BUFF NOPROG t sfc, wf_table t ->
+  forall st dst0 len0 offset orc,
+  at_end_ok t st -> e_d (ent t (t_len t)) < offset -> 0 < len0 -> offset + len0 < 18446744073709551616 ->
+  exists st1, seekable_decompress_old H content BUFF NOPROG t sfc st dst0 len0 offset orc
+              = ROk (18446744073709551616 + e_d (ent t (t_len t)) - offset) dst0 st1
+              /\ 18446744073709551616 + e_d (ent t (t_len t)) - offset > e_d (ent t (t_len t)).
+Proof. exact SeekBeyond.beyond_end_wrapped_length_before_fix. Qed.
+Print Assumptions beyond_end_wrapped_length_before_fix.
+Theorem wrapping_offset_never_returned_before_fix : forall H content BUFF NOPROG t sfc, wf_table t ->
+  forall st dst0 len0 offset orc,
+  at_end_ok t st -> e_d (ent t (t_len t)) <= offset -> offset < 18446744073709551616 -> len0 < 18446744073709551616 ->
+  18446744073709551616 <= offset + len0 -> offset + len0 - 18446744073709551616 < e_d (ent t (t_len t)) ->
+  exists st1, seekable_decompress_old H content BUFF NOPROG t sfc st dst0 len0 offset orc = RSpin st1.
+Proof. exact SeekBeyond.wrapping_offset_never_returned_before_fix. Qed.
+Print Assumptions wrapping_offset_never_returned_before_fix.
+Theorem reachable_states_are_at_end_ok : forall content t st, Inv content t st -> at_end_ok t st.
+Proof. exact Inv_at_end_ok. Qed.
+Print Assumptions reachable_states_are_at_end_ok.
+
+(* ---- fix b978b70: the state after a decoder error (curFrame = (U32)-1) satisfies the cache invariant, for every table
+   and state: the next call seeks and resets, and the read theorems apply to it *)
+Theorem failed_decoder_leaves_consistent_cache : forall content t st, wf_table t -> Inv content t (decoder_failed st).
+Proof. exact decoder_failed_keeps_invariant. Qed.
+Print Assumptions failed_decoder_leaves_consistent_cache.
+
+(* ---- fix 9f11afe: one seek-table entry = one zstd frame.  EVERY history of compressStream / endFrame / endStream calls
+   from initCStream - NO contract on the caller - and EVERY inner behaviour: in the sequence of inner libzstd calls the
+   seekable layer makes, no ZSTD_compressStream is issued while a ZSTD_endStream is incomplete (returned > 0, none
+   returned 0 since), which is the only way the inner stream could end a frame behind the layer's back. *)
+Theorem one_seek_table_entry_per_zstd_frame : forall H cf m s0 ops s' rets,
+  c_init cf m = Ok s0 -> c_run H s0 ops = Some (s', rets) -> inner_seq_ok false (flat_map orc_of ops).
+Proof. exact one_entry_one_frame. Qed.
+Print Assumptions one_seek_table_entry_per_zstd_frame.
+Theorem compressStream_before_fix_compresses_into_pending_end :
+  exists s0 r1 r2, c_init 0 0 = Ok s0 /\
+    c_end_frame exc_H s0 [IEnd 2 17] = Some r1 /\ c_pend (cr_st r1) = true /\
+    c_compress_body exc_H (cr_st r1) [5; 6] [ICompress 2 19 7] = Some r2 /\ cr_consumed r2 = 2 /\
+    ~ inner_seq_ok false [IEnd 2 17; ICompress 2 19 7].
+Proof. exact before_fix_compresses_into_pending_end. Qed.
+Print Assumptions compressStream_before_fix_compresses_into_pending_end.
+
+(* ---- fix 0531868: EVERY checksumFlag value: the loader reads back the table written under any flag (2, 4, 256 ...) *)
+Theorem seektable_roundtrip_any_flag : forall cf log pre buf0,
+  lenN buf0 = sk_BUFF -> lenN log <= MAXFRAMES -> Forall logent_ok log ->
+  load_seek_table sk_BUFF (pre ++ seek_table_bytes cf log) buf0 = Ok (table_of (flag_set cf) log).
+Proof. exact SeekEndToEnd.seektable_roundtrip_any_flag. Qed.
+Print Assumptions seektable_roundtrip_any_flag.
